@@ -317,6 +317,11 @@ func zzC05_ecdsa_public(algoIdx, n int, compressed bool) {
 		pk, err = DecodePublicKey(algo, b)
 	}
 	assertEqBytes(b, b0, "input unmodified")
+	if err == nil {
+		for i := range b { // the key does not alias the caller's buffer
+			b[i] ^= 0xa5
+		}
+	}
 	if err != nil {
 		verifAssert(IsInvalidInputsError(err), "rejection is an invalid-input error")
 		if !compressed && n == 64 {
